@@ -524,14 +524,14 @@ theorem truthful_source_change (w : World) (s s' : Source) (t : Tgt) (c : Cache)
   · have hL := h3 x.symm
     obtain ⟨tid, ht, hd⟩ := htr (Or.inl hL) h0
     rcases hd with d1 | ⟨_, ln1, _, _⟩
-    · refine ⟨tid, ht, Or.inr ⟨x, fun y => h1 y.symm, ?_, fun y => h2 y.symm⟩⟩
+    · refine ⟨tid, ht, Or.inr ⟨x, fun y => h1 y.symm, ?_, Or.inl (fun y => h2 y.symm)⟩⟩
       rw [← x, hL]; exact d1
     · exact absurd hL ln1
 
 /-- the source may change anything but its ids (backlog window, offsets) -/
 theorem truthful_same_ids (w : World) (s s' : Source) (t : Tgt) (c : Cache)
     (htr : Truthful w s t c) (h1 : s'.id1 = s.id1) (h2 : s'.id2 = s.id2) : Truthful w s' t c := by
-  unfold Truthful at htr ⊢
+  unfold Truthful NotYetCurrent at htr ⊢
   rw [h1, h2]; exact htr
 
 /-- a target that holds nothing, with nothing stored, is truthful -/
@@ -544,19 +544,17 @@ theorem truthful_initially (w : World) (s : Source) (hs : SourceWF s) (c : Cache
 
 /-! ## Sequences of connections -/
 
-/-- replacing the cache (lost, trimmed, collected, another instance's) keeps the invariant
-    unless the new cache is newly labelled with the current id -/
+/-- replacing the cache (lost, trimmed, collected, another instance's, cleared and
+    relabelled by a `syncMeta` that then failed) keeps the invariant unless the new
+    cache newly holds data under the current id -/
 theorem truthful_cache_change (w : World) (s : Source) (t : Tgt) (c c' : Cache)
-    (htr : Truthful w s t c) (h : c'.runId = c.runId ∨ c'.runId ≠ s.id1) : Truthful w s t c' := by
+    (htr : Truthful w s t c) (h : NotYetCurrent s c → NotYetCurrent s c') : Truthful w s t c' := by
   intro hin h0
   obtain ⟨tid, ht, hd⟩ := htr hin h0
   refine ⟨tid, ht, ?_⟩
   rcases hd with d1 | ⟨a, b, ag, hc⟩
   · exact Or.inl d1
-  · refine Or.inr ⟨a, b, ag, ?_⟩
-    rcases h with e | e
-    · rw [e]; exact hc
-    · exact e
+  · exact Or.inr ⟨a, b, ag, h hc⟩
 
 /-- a position that cannot be continued (foreign id or negative offset) is truthful -/
 theorem truthful_forget (w : World) (s : Source) (sp' : SP) (tr : Truth) (c : Cache)
@@ -605,6 +603,37 @@ theorem reach_safe (w : World) (σ : Sys) (h : Reach w σ) (start : Int) (byte :
   obtain ⟨hs, hag, hc, hok, htr⟩ := reach_inv w σ h
   exact continues_what_the_target_holds w σ.s σ.t σ.c σ.d hs hc hok hag htr start byte hd
 
+/-- `syncMeta` failing after it cleared and relabelled the cache (`channel.DelRunId`,
+    `channel.SetRunId`) and before the output was told anything leaves a reachable
+    state: an empty cache already labelled with the current id, bookkeeping untouched. -/
+theorem reach_after_failed_meta (w : World) (σ : Sys) (h : Reach w σ) :
+    Reach w ⟨σ.s, σ.t, ⟨σ.c.backend, σ.s.id1, none, none⟩, CData.empty⟩ :=
+  Reach.cache σ _ _ h ⟨trivial, trivial, trivial, fun _ => ⟨rfl, rfl⟩⟩ ⟨trivial, trivial⟩
+    (fun _ => Or.inr ⟨rfl, rfl⟩)
+
+/-! ### non-vacuity of `Reach` / `reach_safe`: empty target and cache, FULLRESYNC at
+    200 replayed to the end (the cache stores 30 more bytes), the source moves on to
+    230, and the next connection streams from 200 -/
+
+def s0b : Source := { s0 with backlogLen := 181, masterOff := 230 }
+def σA : Sys := ⟨s0, ⟨SP.initial, .none⟩, ⟨.memory, [], none, none⟩, CData.empty⟩
+def σB : Sys := ⟨s0, step true w0 s0 σA.t σA.c σA.d true 0,
+  cacheAfter (run w0 s0 σA.t.stored σA.c σA.d).mt 30, (run w0 s0 σA.t.stored σA.c σA.d).data⟩
+def σC : Sys := ⟨s0b, σB.t, σB.c, σB.d⟩
+
+theorem reach_example :
+    Reach w0 σC ∧ σC.t.stored = ⟨[1], 200⟩ ∧ σC.c = ⟨.memory, [1], some (200, 10), some (200, 230)⟩ ∧
+    ∃ byte, (run w0 s0b σC.t.stored σC.c σC.d).delivery = .stream 200 byte := by
+  have hs : SourceWF s0b := by refine ⟨?_, ?_, ?_, ?_, ?_, ?_, ?_, ?_, ?_⟩ <;> decide
+  have hag : Agree w0 s0b := by
+    intro n _ hn
+    have : ¬ (100 ≤ n) := by simp only [s0b, s0] at hn; omega
+    simp [w0, s0b, s0, this]
+  refine ⟨?_, by decide, by decide, ⟨_, rfl⟩⟩
+  exact Reach.same σB s0b
+    (Reach.conn σA true true 0 30 (Reach.init s0 .memory s0_wf w0_agree) (by decide) (by decide))
+    hs hag rfl rfl
+
 /-- a log is never continued on a target whose last snapshot replay did not complete, nor on an empty one -/
 theorem reach_never_streams_onto_dirty (w : World) (σ : Sys) (h : Reach w σ) (start : Int) (byte : Int → UInt8)
     (hd : (run w σ.s σ.t.stored σ.c σ.d).delivery = .stream start byte) :
@@ -640,7 +669,7 @@ theorem storedCompat_not_invariant :
         (cacheAfter (run w0 s0 ⟨[2], 80⟩ cA (dOf [2] 0)).mt 70) := by
   refine ⟨?_, by unfold StoredCompat; decide, by unfold StoredCompat; decide⟩
   intro _ _
-  exact ⟨[2], rfl, Or.inr ⟨rfl, by decide, fun _ _ _ => rfl, by decide⟩⟩
+  exact ⟨[2], rfl, Or.inr ⟨rfl, by decide, fun _ _ _ => rfl, Or.inl (by decide)⟩⟩
 
 /-! ### what the three repairs are needed for (behaviour before 07a0622, 23cb23d, 58997e8) -/
 
@@ -668,7 +697,7 @@ theorem reset_on_full_needed :
     (step false w0 s0 ⟨⟨[2], 150⟩, .at [2] 150⟩ cB (dOf [2] 100) false 0).stored = SP.initial := by
   refine ⟨?_, ?_, ?_, by decide, by decide⟩
   · intro _ _
-    exact ⟨[2], rfl, Or.inr ⟨rfl, by decide, fun _ _ _ => rfl, by decide⟩⟩
+    exact ⟨[2], rfl, Or.inr ⟨rfl, by decide, fun _ _ _ => rfl, Or.inl (by decide)⟩⟩
   · intro h
     have hst : (stepOld true w0 s0 ⟨⟨[2], 150⟩, .at [2] 150⟩ cB (dOf [2] 100) false 0) = ⟨⟨[1], 150⟩, .dirty⟩ := by
       simp only [stepOld]
@@ -695,7 +724,7 @@ theorem no_relabel_at_start_needed :
     (run w0 s0 ⟨[2], 150⟩ ⟨.memory, [], none, none⟩ CData.empty).mt.ps.full = true := by
   refine ⟨?_, ?_, by decide, by decide⟩
   · intro _ _
-    exact ⟨[2], rfl, Or.inr ⟨rfl, by decide, fun _ _ _ => rfl, by decide⟩⟩
+    exact ⟨[2], rfl, Or.inr ⟨rfl, by decide, fun _ _ _ => rfl, Or.inl (by decide)⟩⟩
   · intro h
     obtain ⟨tid, ht, hd⟩ := h (Or.inl rfl) (by decide)
     cases ht
